@@ -96,7 +96,7 @@ def facts_for(repo=None, cfg='default', target_dir=None, quiet=False):
         except OSError:
             pass
         return out, info
-    lock = open(os.path.join(BUILD, 'extract.%s.lock' % (cfg if target_dir is None else 'x')), 'w')
+    lock = open(os.path.join(BUILD, 'extract.%s.lock' % (cfg if target_dir is None else os.path.basename(target_dir))), 'w')
     fcntl.flock(lock, fcntl.LOCK_EX)
     try:
         if os.path.exists(out) and os.path.getsize(out) > 0:
@@ -129,7 +129,7 @@ def facts_for(repo=None, cfg='default', target_dir=None, quiet=False):
         info['extract_s'] = round(time.time() - t0, 2)
         # keep the cache small
         olds = sorted(glob.glob(os.path.join(FACTS, '*.jsonl')), key=os.path.getmtime)
-        for p in olds[:-25]:
+        for p in olds[:-int(os.environ.get('SIMLINT_FACTS_KEEP', '25'))]:
             try:
                 os.remove(p)
             except OSError:
